@@ -4,9 +4,12 @@
     Model/C04/NT.lean       positional named tensors, `Tensor.eager_subs` pass by pass (+ the pre-fix policy)
     Model/C04/Subst.lean    term level: `substitute`, `boundFresh`, the SubstituteInterpretation fresh rule, fusion
     Model/C04/Classes.lean  per-class `eager_subs` index arithmetic: Slice, Stack, Cat
+    Model/C04/Classes2.lean Gaussian real substitution (ordered pairs, explicit gather), Constant, MarkovProduct/Scatter,
+                            term builders of Independent/Delta eager_subs
 
   The specification is `denote (Term.subs t σ)` of the shared Model/Term.lean.
 -/
 import FunsorVerif.Model.C04.NT
 import FunsorVerif.Model.C04.Subst
 import FunsorVerif.Model.C04.Classes
+import FunsorVerif.Model.C04.Classes2
